@@ -72,8 +72,14 @@ pub fn run_one(src: &str) {
 /// Parent: one child per case, watchdog per case (`limit` for the whole child).
 pub fn run_case(exe: &str, case: &Value, limit: Duration) -> Value {
     let src = case["text"].as_str().unwrap_or("");
-    let mut child = Command::new(exe)
-        .arg("total-one")
+    // `stack: "thread"`: the stages run on a spawned thread with the default stack of a Rust thread
+    // (2 MiB) instead of the main thread of the child (8 MiB): what a caller on a worker thread gets
+    let mut cmd = Command::new(exe);
+    cmd.arg("total-one");
+    if case["stack"] == "thread" {
+        cmd.arg("--thread");
+    }
+    let mut child = cmd
         .stdin(Stdio::piped())
         .stdout(Stdio::piped())
         .stderr(Stdio::null())
